@@ -338,6 +338,27 @@ def compiled_part(chk: Check, model, cv: CompiledView):
         runs = T.mk_call(("attr", T.mk_attr(slot, "run"), "sum"), [], [("axis", T.const(-1))])
         t = cnt[0].term
         okc = t[0] == "num" and any(x == runs for x in T.walk(t)) and not any(x[0] == "slice" for x in T.walk(t)) and T.dict_value(slot) is not None
+    if not cnt:
+        # grouped first, summed afterwards: every slot's runs appended to the list of its kind (whole, no slicing), then per kind the
+        # whole list folded with + from zeros and the maximum over the episodes stored under the kind
+        app = [e for e in rr.events if e.kind == "call" and e.name.endswith(".append") and e.recv is not None and e.recv[0] == "call" and T.call_name(e.recv).endswith(".setdefault")
+               and len(e.recv[2]) == 2 and e.recv[2][0][0] == "attr" and e.recv[2][0][2] == "kind" and len(e.args) == 1]
+        if len(app) == 1:
+            slot = app[0].recv[2][0][1]
+            runs = T.mk_call(("attr", T.mk_attr(slot, "run"), "sum"), [], [("axis", T.const(-1))])
+            table = app[0].recv[1][1] if isinstance(app[0].recv[1], tuple) and app[0].recv[1][0] == "attr" else None
+            okc = app[0].args[0] == runs and T.dict_value(slot) is not None and e_once(app[0]) and table is not None
+            folds = [l for l in rr.loops.values() if l.kind == "for" and l.iter[0] == "index" and T.const_value(l.iter[2]) == 1 and l.iter[1][0] == "elem"
+                     and l.iter[1][1] == T.mk_call(("attr", table, "items") if table is not None else "?", []) and len(l.env_in) == 1]
+            okc = okc and len(folds) == 1
+            if okc:
+                l = folds[0]
+                (nm, sym_in), = l.env_in.items()
+                okc = l.env_out.get(nm) == T.add(sym_in, ("elem", l.iter, l.uid)) and T.call_name(l.pre.get(nm, T.NONE)).endswith("zeros_like")
+                out = S(f"loopout{l.uid}:{nm}")
+                fin = [e for e in rr.events if e.kind == "store_sub" and e.key == T.mk_index(l.iter[1], T.ZERO)]
+                okc = okc and len(fin) == 1 and fin[0].term in (T.mk_reduce(out, "max", []), T.mk_call(("attr", out, "max"), []))
+            cnt = app
     chk.add("C13.rows", "one row per scheduled run (all partitions counted)", bool(okc), f"rows per node = {T.show(cnt[0].term)[:200] if cnt else None}, expected the sum of slot.run over every partition, "
             "accumulated per node kind (a truncated count makes the writes of the last partition fall outside the record)", chk.loc(fi))
     steps_terms = [dict(e.term[2]).get("steps") for e in rr.events if e.kind == "call" and e.name == "new:NodeRecord"]
@@ -350,6 +371,11 @@ def compiled_part(chk: Check, model, cv: CompiledView):
             P = stt[1]
             ok = len(P) == 1 and P[0][1] == -1 and len(P[0][0]) == 1 and P[0][0][0][0][0] == "call" and T.call_name(P[0][0][0][0]) == "jax.numpy.ones"
     chk.add("C13.rows", "init_record fills every leaf with -1", ok, f"record rows are initialised with {T.show(steps_terms[0])[:160] if steps_terms else None}, expected ones(...) * -1", chk.loc(fi))
+
+
+def e_once(e) -> bool:
+    """the event sits directly in one loop (executed once per element of it)"""
+    return len(e.loops) == 1
 
 
 def run(chk: Check, model):
